@@ -143,7 +143,7 @@ def plan(tier, seed):
 def run_shard(shard, tier, seed, rec):
     H.install_work_guard()
     i = shard["i"]
-    n = {"quick": 30, "thorough": 1500}[tier]
+    n = {"quick": 50, "thorough": 1500}[tier]
     drivers = [["h5"], ["ih5"], ["ih5mf"], ["h5"]][i % 4]
     strat = C.chistories(10, 30 if tier == "quick" else 60).map(lambda h: dict(history=h, drivers=drivers))
     hyp.search(strat, lambda c: run_case(c, rec), rec, seed=seed * 1000 + i, max_examples=n,
